@@ -384,6 +384,25 @@ def run(ctx):
                     kw = K(**dict(zip(d.names, args)))
                     if ser.pack_serializable(kw) != bp:
                         ctx.violation("%s/keyword-construction" % label, "keyword construction differs", case)
+                    # mixed construction (compiled_init_equals_interpreted_mixed): a positional prefix, the rest by keyword in
+                    # reverse order; calls the plain form rejects (a field given twice, an unknown keyword) are rejected too
+                    if label == "compiled" and "bits" not in d.formats and len(d.names) >= 2:
+                        k = r.randrange(1, len(d.names))
+                        rest = list(zip(d.names[k:], args[k:]))[::-1]
+                        if ser.pack_serializable(K(*args[:k], **dict(rest))) != bp:
+                            ctx.violation("compiled/mixed-construction", "positional prefix of %d + keywords differs" % k, case)
+                        for bad in (dict(rest + [(d.names[0], args[0])]), dict(rest + [("no_such_field", 1)]), dict(rest[1:])):
+                            outcome = []
+                            for form in (P, K):
+                                try:
+                                    form(*args[:k], **bad)
+                                    outcome.append("accepted")
+                                except (KeyError, TypeError, IndexError):
+                                    outcome.append("rejected")
+                            if outcome[0] != outcome[1]:
+                                ctx.violation("compiled/mixed-construction-acceptance",
+                                              "a call with keywords %s is %s by the plain form and %s by the compiled form" % (
+                                                  sorted(bad), outcome[0], outcome[1]), case)
                 except Exception as e:   # noqa
                     ctx.violation("%s/raises" % label, "%s form raises %s: %s" % (label, type(e).__name__, str(e)[:100]), case)
     # ---- siblings: the hook-less definition of the same shape compiled AFTER a hooked one still behaves like its plain form
